@@ -65,6 +65,11 @@ fn nodes(l: &str) -> Option<Vec<Node>> {
         return None;
     }
     let n: usize = l.rsplit(':').next().and_then(|x| x.parse().ok()).unwrap_or(0);
+    if l.starts_with("nodesdup:") {
+        // the same two ids over and over, every entry at its own address (a node listed at an old and a new address, a node
+        // listed once per routing table): entries are entries, the codec must not merge them
+        return Some((0..n).map(|i| Node::new(Id::from(node(i % 2).0), node(i).1)).collect());
+    }
     Some((0..n).map(|i| Node::new(Id::from(node(i).0), node(i).1)).collect())
 }
 fn count(l: &str) -> usize {
@@ -326,6 +331,7 @@ fn args_dict(l: &Labels, d: &B) -> Value {
                 "seq" | "cas" | "port" | "implied_port" | "t" => int_s(v),
                 "nodes" => match v.as_bytes().and_then(krpc::parse_compact_nodes) {
                     Some(ns) if ns.iter().enumerate().all(|(i, n)| *n == node(i)) => json!(format!("nodes:{}", ns.len())),
+                    Some(ns) if ns.len() >= 3 && ns.iter().enumerate().all(|(i, n)| n.0 == node(i % 2).0 && n.1 == node(i).1) => json!(format!("nodesdup:{}", ns.len())),
                     _ => json!("?nodes"),
                 },
                 "values" => match v.as_list() {
